@@ -112,7 +112,7 @@ impl Property for C05 {
         "exploration"
     }
     fn rule(&self) -> String {
-        "A case = secure server 0 (plus server 1 with the same private key and protocol but its own challenge key), 3-8 identities/addresses (server client limit 1-4, so tables sized from it fill up) holding tokens that are good, sealed with a foreign key, for a foreign protocol id (one bit away from the server's, in any byte), listing only a wrong host or a mixed host list, with expiry 1-4 s or 600 s; honest handshake steps with loss in either direction; the server clock stepped by 1-1500 ms around every expiry second; adversarial steps: a request presented from another address (stolen token), single-field corruptions of a request (a bit of the sealed token, the public expiry +-1 / +1000, protocol id - including the public field of a foreign-protocol token rewritten to the server's id -, version, nonce), cross-use - a response from a pending address sealed with that address's own key but echoing a challenge issued to another session (other id, same id with other user data, other server) -, a response replayed from another address, bit-flipped responses. Oracle at every ClientConnected{id, addr, user_data} (and for client_addr / user_data / clients_id right after): the trigger was an unmodified response from addr; addr had been challenged for an unmodified request whose token is sealed under this server's key and protocol, lists a public address, was unexpired (server second <= expiry when connecting, < expiry when requesting) and was first used from addr; id and user data are exactly those sealed in that token; the echoed challenge was issued by this server for id. Non-trivial: >= 1 connection established and >= 1 adversarial step after a challenge existed. Distinct = hash of the decoded operation trace.".into()
+        "A case = secure server 0 (plus server 1 with the same private key and protocol but its own challenge key), 3-8 identities/addresses (server client limit 1-4, so tables sized from it fill up) holding tokens that are good, sealed with a foreign key, for a foreign protocol id (one bit away from the server's, in any byte), listing only a wrong host, a mixed host list or only the server's second public address (valid), with expiry 1-4 s or 600 s; honest handshake steps with loss in either direction; the server clock stepped by 1-1500 ms around every expiry second; adversarial steps: a request presented from another address (stolen token), single-field corruptions of a request (a bit of the sealed token, the public expiry +-1 / +1000, protocol id - including the public field of a foreign-protocol token rewritten to the server's id -, version, nonce), cross-use - a response from a pending address sealed with that address's own key but echoing a challenge issued to another session (other id, same id with other user data, other server) -, a response replayed from another address, bit-flipped responses. Oracle at every ClientConnected{id, addr, user_data} (and for client_addr / user_data / clients_id right after): the trigger was an unmodified response from addr; addr had been challenged for an unmodified request whose token is sealed under this server's key and protocol, lists a public address, was unexpired (server second <= expiry when connecting, < expiry when requesting) and was first used from addr; id and user data are exactly those sealed in that token; the echoed challenge was issued by this server for id. Non-trivial: >= 1 connection established and >= 1 adversarial step after a challenge existed. Distinct = hash of the decoded operation trace.".into()
     }
     fn assumptions(&self) -> Vec<String> {
         vec!["'first used from' = the first address whose request with that token this server answered".into(), "the server is updated before every presentation, so expiry is judged against its current second".into()]
@@ -121,7 +121,7 @@ impl Property for C05 {
         PbtCfg { cases: tier.pick(300_000, 5_000_000), max_len: tier.pick(500, 1500), shrink_ms: 120_000 }
     }
     fn required_labels(&self) -> Vec<&'static str> {
-        vec!["connected", "stolen_request", "corrupt_request", "cross_response", "cross_same_id", "cross_other_server", "replay_response", "expired_at_request", "near_expiry", "bad_token_request", "stolen_request_small_server", "protocol_rewritten"]
+        vec!["connected", "stolen_request", "corrupt_request", "cross_response", "cross_same_id", "cross_other_server", "replay_response", "expired_at_request", "near_expiry", "bad_token_request", "stolen_request_small_server", "protocol_rewritten", "second_public_address"]
     }
     fn run_choices(&self, ctx: &mut Ctx) -> Outcome {
         let mut nw = NetWorld::new(ctx.src.u16() as u64);
@@ -143,6 +143,11 @@ impl Property for C05 {
                 Flaw::WrongHost => vec![server_addr(5)],
                 Flaw::MixedHost => vec![server_addr(5), server_addr(0)],
                 _ if second_server => vec![server_addr(1), server_addr(0)],
+                // the server's second public address alone is as good as the first
+                _ if ctx.src.chance(40) => {
+                    ctx.label("second_public_address");
+                    vec![server_addr(20)]
+                }
                 _ => vec![server_addr(0)],
             };
             let spec = TokenSpec { client_id, user, expire_seconds, timeout: 3, addrs, key: if flaw == Flaw::ForeignKey { key(9) } else { key(1) }, protocol: if flaw == Flaw::ForeignProtocol { PROTO ^ (1u64 << ctx.src.pick(&[1u32, 0, 8, 24, 40, 56, 63, 60])) } else { PROTO } };
@@ -212,7 +217,7 @@ impl Property for C05 {
                     if let Some(did) = nw.client_update(c, dt) {
                         let d = nw.pool[did].clone();
                         if !lost_up {
-                            if d.to == server_addr(0) {
+                            if d.to == server_addr(0) || d.to == server_addr(20) {
                                 let t = m.client_tok[c];
                                 let meta = match d.kind {
                                     0 => Meta::Request { tok: t, modified: false },
